@@ -227,7 +227,19 @@ def _terms_of(x):
     if isinstance(x, (SymInt, SymFloat)):
         return [x.t]
     if hasattr(x, "key") and hasattr(x, "mapping"):
-        return _terms_of(x.key)
+        # a looked-up value is rendered by its text: two keys with the same value (or both unnamed -> None) give the same text
+        vals = []
+        for v in list(x.mapping.values()) + [x.default]:
+            if not any(v is w or (type(v) is type(w) and v == w) for w in vals):
+                vals.append(v)
+
+        def idx(v):
+            return z3.IntVal([i for i, w in enumerate(vals) if v is w or (type(v) is type(w) and v == w)][0])
+        t = idx(x.default)
+        from .proxies import truth
+        for k_, v in x.mapping.items():
+            t = z3.If(truth(x.key == k_), idx(v), t)
+        return [t]
     if isinstance(x, str) or x is None or isinstance(x, (int, float)):
         return []
     return None
